@@ -140,8 +140,8 @@ theorem C13_restore_then_recover (sv ov : String) (self other : Store) (ho : Rea
 /-! ## non-vacuity -/
 
 def demo : List Op := [
-  .addProxy "h1:1" "n1" "n2" none, .addProxy "h1:2" "n3" "n4" none,
-  .addProxy "h2:1" "n5" "n6" none, .addProxy "h2:2" "n7" "n8" none,
+  .addProxy "h1:1" "n1" "n2" none none, .addProxy "h1:2" "n3" "n4" none none,
+  .addProxy "h2:1" "n5" "n6" none none, .addProxy "h2:2" "n7" "n8" none none,
   .addCluster "c" 4 [("h1:1", "h2:1")]]
 
 -- snapshot with global epoch 5; proxies report up to 40: recovered epochs are 42
@@ -165,5 +165,17 @@ example : (restore "v" (run demo) "w" (run demo)).2 = some .invalidMetaVersion :
 example : (restore "v" (run demo) "v"
     { (run demo) with clusters := (run demo).clusters.map fun c => { c with epoch := 1 } }).2 = none := by
   decide
+
+/-- ordered-proxy mode (`enable_ordered_proxy = true`): the snapshot carries the mode, recovery keeps it -/
+def demoOrdered : List Op := [
+  .setOrdered,
+  .addProxy "h1:1" "n1" "n2" none (some 0), .addProxy "h1:2" "n3" "n4" none (some 1),
+  .addCluster "c" 4 [("h1:1", "h1:2")]]
+
+example : (run demoOrdered).ordered = true ∧ (serviceRecoverEpoch (run demoOrdered) 40).ordered = true ∧
+    (serviceRecoverEpoch (run demoOrdered) 40).globalEpoch = 42 ∧
+    (serviceRecoverEpoch (run demoOrdered) 40).clusters.map (·.epoch) = [42] := by decide
+example : ∃ v, proxyView (step (serviceRecoverEpoch (run demoOrdered) 40) (.failover "h1:1" "-")) "h1:2" 0 =
+    .ok (some v) ∧ v.epoch = 43 := ⟨_, rfl, rfl⟩
 
 end Um.Broker.C13
